@@ -39,6 +39,9 @@ type C17Plan struct {
 	CheckpointH int          `json:"checkpointH"` // newest checkpoint at height CheckpointH % (tip+1); an older one below it if possible
 	TZMinutes   int          `json:"tzMinutes"`
 	Corruptions []Corruption `json:"corruptions"`
+	// StaleScratch > 0: an earlier export on this machine - of another store whose longest chain has that many more
+	// headers - failed after its scratch file was written (target directory missing) and left the file behind
+	StaleScratch int `json:"staleScratch,omitempty"`
 }
 
 var replVals = []string{"", "abc", "99999999999999999999", "-1", "4294967296", "2147483648", "-2147483649", "1.5", "0x10", " 7"}
@@ -175,6 +178,35 @@ func runC17(p *C17Plan) (*stats.Case, error) {
 	cps = append(cps, chaincfg.Checkpoint{Height: int32(cpH), Hash: &hh})
 	config.Checkpoints = cps
 
+	staleLeft := false
+	if p.StaleScratch > 0 {
+		stack.RemoveDB(filepath.Join(dir, "prev.db"))
+		s2, err := stack.New(stack.Options{Dir: dir, DBFile: "prev.db"})
+		if err != nil {
+			return nil, fmt.Errorf("infra: %w", err)
+		}
+		prev := hist.Genesis().Hash
+		for i := 0; i < len(path)+p.StaleScratch; i++ {
+			h := model.Header{Version: 1, Prev: prev, Merkle: hist.MerkleOf(uint64(5_000_000 + i)), Timestamp: 1650000000 + uint32(i), Bits: 0x1d00ffff, Nonce: uint32(i)}
+			if _, err := s2.Services.Chains.Add(hist.ToSource(h)); err != nil {
+				s2.Close()
+				return nil, fmt.Errorf("infra: earlier store: %w", err)
+			}
+			prev = h.Hash()
+		}
+		s2.Close()
+		cfg2 := config.GetDefaultAppConfig()
+		cfg2.Db.SQLite.FilePath = filepath.Join(dir, "prev.db")
+		cfg2.Db.SchemaPath = filepath.Join(stack.RepoRoot(), "database", "migrations")
+		cfg2.Db.PreparedDbFilePath = filepath.Join("no-such-directory", "prev.csv.gz")
+		if err := database.ExportHeaders(cfg2, nopLogger()); err == nil {
+			_ = os.RemoveAll(filepath.Join(dir, "no-such-directory"))
+		}
+		stack.RemoveDB(filepath.Join(dir, "prev.db"))
+		if _, err := os.Stat(filepath.Join(os.TempDir(), "headers.csv")); err == nil {
+			staleLeft = true
+		}
+	}
 	// export
 	exp := "export.csv.gz"
 	_ = os.Remove(filepath.Join(dir, exp))
@@ -431,6 +463,7 @@ func runC17(p *C17Plan) (*stats.Case, error) {
 	cl["with_boundary_field_on_longest"] = b2i(boundary)
 	cl["with_corruption_below_cp_in_2nd_batch"] = b2i(belowCP2ndBatch)
 	cl["with_nonzero_tz"] = b2i(p.TZMinutes != 0)
+	cl["with_scratch_file_left_by_an_earlier_failed_export"] = b2i(staleLeft)
 	nt := (stale > 0 && orphan > 0 && boundary) || belowCP2ndBatch
 	return &stats.Case{Sig: stats.Sig(planSig(p.Hist), fieldSig(p.Hist), p.CheckpointH, p.TZMinutes, fmt.Sprint(p.Corruptions)), Nontrivial: nt, Classes: cl, Sample: sampleC17(p)}, nil
 }
@@ -455,6 +488,9 @@ var propC17 = Prop[*C17Plan]{
 		p := &C17Plan{Hist: hist.Gen(t, o)}
 		if o.LongShare == 0 {
 			p.PadRows = rapid.SampledFrom([]int{0, 0, 0, 0, 0, 0, 499, 500, 501, 1000}).Draw(t, "padrows")
+		}
+		if o.LongShare == 0 && p.PadRows == 0 && rapid.IntRange(0, 3).Draw(t, "stalek") == 0 {
+			p.StaleScratch = rapid.IntRange(1, 40).Draw(t, "stale")
 		}
 		p.CheckpointH = rapid.IntRange(0, 1500).Draw(t, "cp")
 		p.TZMinutes = rapid.SampledFrom([]int{0, 0, 60, -300, 330, 765, -720, 840}).Draw(t, "tz")
